@@ -109,8 +109,6 @@ class C04:
         counters = {}
         t0 = SEAMS.clock.elapsed
         mon = sched.Monitor(case["obs_p"], case["obs_seed"], log)
-        if case.get("init") is not None:
-            mon.site_suffix["IterativeTighteningSearch"] = "+initial_bounds"   # a search given an a-priori interval
         mon.known = KNOWN
         if case["obs_p"] < 1.0:
             counters["probe.obs_p_lt_1"] = 1
@@ -225,6 +223,9 @@ class C04:
             obj = gsearch.IterativeTighteningSearch(iter(items), initial_bounds=init)
             counters["probe.search_session"] = 1
             ops = ["T", "T", "T", "B", "G", "M"]
+        # the site of a container session names its ROLE, not its class (a rename must not change a verdict)
+        mon.site_of[id(obj)] = ("matcher" if case["kind"] == "matcher" else
+                                "search+initial_bounds" if case.get("init") is not None else "search")
         self._container_obj = obj
         for step, (oi, arg) in enumerate(case["schedule"]):
             op = ops[oi % len(ops)]
@@ -248,7 +249,7 @@ class C04:
         while obj.tighten_bounds():
             n += 1
             if n > width + len(items) + 4:
-                raise Violation("no-convergence", type(obj).__name__,
+                raise Violation("no-convergence", mon.site_of[id(obj)],
                                 f"still reports progress after {n} calls; the items allow at most {width} shrinks")
             if mon.violation is not None:
                 return
@@ -256,7 +257,7 @@ class C04:
         b = obj.bounds()
         log.add("final", str(b.lower_bound), str(b.upper_bound), n)
         if not b.definitive():
-            raise Violation("false-not-definitive", type(obj).__name__,
+            raise Violation("false-not-definitive", mon.site_of[id(obj)],
                             f"answered False on [{b.lower_bound},{b.upper_bound}] (items {case['items']})")
         for k, v in stats.items():
             if k.startswith("fault.") and v:
